@@ -85,7 +85,7 @@ CHECKS = {
         "groups": [
             {"name": "c18", "run": "^TestC18_", "shards": {"quick": 8, "thorough": 16},
              "timeout": {"quick": 900, "thorough": 3000},
-             "checks": ["c18-model", "c18-once-burst", "c18-off-concurrent"]},
+             "checks": ["c18-model", "c18-once-burst", "c18-off-concurrent", "c18-off-inside-handler"]},
         ],
     },
     "C04": {
